@@ -46,6 +46,13 @@ func genC20(p *Plan, r *RNG) {
 	}
 	n := r.Range(2, 20)
 	span := max - min + 1
+	two := r.Chance(1, 4)
+	if two {
+		// one generator value per ListenerConfig, all with the same settings: the usual way to
+		// configure a server with several listeners. Its allocations share the machine's ports
+		p.Cfg.Extra["two_gens"] = 1
+		p.Flavor += "+two-instances"
+	}
 	if r.Chance(1, 8) {
 		// one port, three owners in a row, and the first owner's Close called once more while the
 		// second holds the port: the third request fails (or gets another port), it never shares
@@ -111,7 +118,11 @@ func genC20(p *Plan, r *RNG) {
 					port = 40000
 				}
 			}
-			p.Ops = append(p.Ops, Op{Kind: kindOp, At: gap(0), A: OpArgs{S: network, N: port}})
+			o := Op{Kind: kindOp, At: gap(0), A: OpArgs{S: network, N: port}}
+			if two && r.Chance(1, 2) {
+				o.A.Flags = []string{"g2"}
+			}
+			p.Ops = append(p.Ops, o)
 		}
 	}
 	if r.Chance(1, 6) {
